@@ -57,3 +57,47 @@ func c06SwitchedOffAndOn(res *Result) {
 		}
 	}
 }
+
+// c06RenderedOutsideFirst: a template that was already rendered outside any sandbox (where it may run everything) and
+// is then reached through `include ... sandboxed` on the same engine: nothing the first render resolved answers for
+// the second.
+func c06RenderedOutsideFirst(res *Result) {
+	inner := map[string]string{
+		"filter": "<{{ x|spy }}>", "chain-first": "<{{ x|spy|upper }}>", "chain-middle": "<{{ x|upper|spy|upper }}>", "chain-last": "<{{ x|upper|spy }}>", "function": "<{{ spyfn(1) }}>",
+		"for-sequence": "{% for i in xs|spy %}{{ i }}{% endfor %}", "for-chain": "{% for i in xs|spy|reverse %}{{ i }}{% endfor %}", "apply": "{% apply spy %}a{% endapply %}",
+		"argument": "<{{ x|default(spyfn(2)) }}>", "set": "{% set y = x|spy|upper %}{{ y }}", "condition": "{% if x|spy|upper %}y{% endif %}", "nested": "{% include 'deeper' %}",
+		"macro": "{% macro m(a) %}{{ a|spy|upper }}{% endmacro %}{{ m(x) }}", "test-operand": "{{ (x|spy|upper) is defined ? 'd' : 'u' }}", "ternary": "{{ x ? x|spy|upper : '' }}",
+	}
+	for name, src := range inner {
+		for _, times := range []int{1, 3} {
+			filterCalls, functionCalls := 0, 0
+			e := twig.New()
+			e.AddFilter("spy", func(v interface{}, _ ...interface{}) (interface{}, error) { filterCalls++; return v, nil })
+			e.AddFunction("spyfn", func(a ...interface{}) (interface{}, error) { functionCalls++; return "f", nil })
+			e.EnableSandbox(&twig.DefaultSecurityPolicy{AllowedFilters: map[string]bool{"upper": true, "default": true, "reverse": true}, AllowedFunctions: map[string]bool{"m": true},
+				AllowedTags: map[string]bool{"for": true, "apply": true, "include": true, "set": true, "if": true, "macro": true}})
+			e.RegisterString("widget", src)
+			e.RegisterString("deeper", "<{{ x|upper|spy|upper }}{{ spyfn(3) }}>")
+			e.RegisterString("page", "[{% include 'widget' sandboxed %}]")
+			ctx := func() map[string]interface{} { return map[string]interface{}{"x": "v", "xs": []interface{}{1, 2}} }
+			c := Case{"stream": "c06-rendered-outside-first", "widget": src, "position": name, "renders outside the sandbox before": times}
+			res.Hist["stream:c06-rendered-outside-first"]++
+			for i := 0; i < times; i++ {
+				if _, err := e.Render("widget", ctx()); err != nil {
+					break
+				}
+			}
+			outside := filterCalls + functionCalls
+			filterCalls, functionCalls = 0, 0
+			res.Evaluations++
+			out, err := e.Render("page", ctx())
+			if filterCalls+functionCalls > 0 {
+				res.add(Finding{Kind: "oracle", Where: "c06-rendered-outside-first/" + name, Case: c, Expected: "no spy invoked below the sandboxed include",
+					Observed: fmt.Sprintf("filter spy %d times, function spyfn %d times; output %q err %v", filterCalls, functionCalls, out, err),
+					Detail:   fmt.Sprintf("the widget was rendered %d times outside the sandbox first (its callbacks ran %d times there, as they may)", times, outside)})
+			} else if err == nil {
+				res.add(Finding{Kind: "oracle", Where: "c06-rendered-outside-first/" + name, Case: c, Expected: "a security violation", Observed: fmt.Sprintf("output %q, no error", out)})
+			}
+		}
+	}
+}
